@@ -38,6 +38,7 @@
 
 struct vd_sh_s {
 	volatile long cur;	/* index announced */
+	volatile long recycle;	/* resume point of a worker that left to shed memory */
 	volatile long beat;	/* liveness */
 	long evals;
 	long nontriv;
@@ -119,6 +120,25 @@ vd_jstr(FILE *f, const char *s)
 	fputc('"', f);
 }
 
+#define VD_RECYCLE	17
+static long vd_ran;
+static long vd_rss_limit = 1536;	/* MB */
+
+static long
+vd_rss_mb(void)
+{
+	long sz = 0, rss = 0;
+	FILE *f = fopen("/proc/self/statm", "r");
+	if (f == NULL) {
+		return 0;
+	}
+	if (fscanf(f, "%ld %ld", &sz, &rss) != 2) {
+		rss = 0;
+	}
+	fclose(f);
+	return rss * (sysconf(_SC_PAGESIZE) / 1024) / 1024;
+}
+
 /* advance to the next case; true if the caller should run it */
 static inline int
 vd_next(void)
@@ -141,6 +161,13 @@ vd_next(void)
 			vd_sh->capped = 1;
 			return 0;
 		}
+	}
+	if (vd_only < 0 && !(++vd_ran & 0x3f) && vd_rss_mb() > vd_rss_limit) {
+		/* the library leaks by design in places; start a fresh worker */
+		vd_sh->recycle = vd_idx - 1;
+		vd_sh->cur = -1;
+		fflush(stdout);
+		_exit(VD_RECYCLE);
 	}
 	vd_sh->cur = vd_idx;
 	vd_sh->beat++;
@@ -328,6 +355,9 @@ vd_supervise(void (*enumerate)(void), double budget, int *status)
 			if (WIFEXITED(st) && WEXITSTATUS(st) == 0) {
 				return 0;
 			}
+			if (WIFEXITED(st) && WEXITSTATUS(st) == VD_RECYCLE && vd_sh->cur < 0) {
+				return 3;
+			}
 			return 1;
 		}
 		if (vd_sh->beat != lastbeat) {
@@ -360,6 +390,8 @@ vd_main(int argc, char *argv[], void (*enumerate)(void))
 			vd_case_timeout = strtod(argv[++i], NULL);
 		} else if (!strcmp(argv[i], "--deadline") && i + 1 < argc) {
 			deadline_s = strtod(argv[++i], NULL);
+		} else if (!strcmp(argv[i], "--rss-limit") && i + 1 < argc) {
+			vd_rss_limit = strtol(argv[++i], NULL, 0);
 		} else if (!strcmp(argv[i], "--samples") && i + 1 < argc) {
 			vd_maxsamples = atoi(argv[++i]);
 		} else if (!strcmp(argv[i], "--sample-every") && i + 1 < argc) {
@@ -395,6 +427,11 @@ vd_main(int argc, char *argv[], void (*enumerate)(void))
 
 		if (r == 0) {
 			break;
+		}
+		if (r == 3) {
+			vd_count("recycled_workers", 1);
+			vd_resume = vd_sh->recycle;
+			continue;
 		}
 		at = vd_sh->cur;
 		if (at < 0) {
